@@ -29,6 +29,11 @@ func runC02(c *Ctx) {
 	// the bulk loader is one of the storage configurations: a key split over two SST files loses values at ingestion
 	c.importRules(runC07, "C07", map[string]string{"buckets": "buckets"})
 	c02MapWalk(c, "C02")
+	c02ClosestExact(c, "C02.closest-exact")
+	// "identical for clients with a location": both readers must consult the location-neutral rows the same way
+	// (seeds c02e, c02g), and the per-request RocksDB context must not survive the request (seed c02f)
+	c.importRules(runC04, "C04", map[string]string{"untagged": "untagged", "keyloc": "keyloc"})
+	c.importRules(runC05, "C05", map[string]string{"fresh-context": "fresh-context"})
 }
 
 func c01TypeFilter2(c *Ctx, rule string) {
